@@ -17,6 +17,12 @@
 (*   tables : <<nrows, ncols, <<tiles>>>>, a tile is <<numrows, <<rows>>>>,*)
 (*            a row is <<tile_row_index, cell_count, present, noffsets,    *)
 (*            inbounds, aligned, increasing, nonoverlap>> (0/1 flags)      *)
+(*   dataIds : identifiers registered in the package metadata's data list  *)
+(*             (images ...: id -> file under Data/)                        *)
+(*   dataRefs : <<id, <<data ids>>>> TSP.DataReference targets of created  *)
+(*             and rewritten objects; srcDataDangling as for srcDangling   *)
+(*   dataFilesMissing : registered data whose file is not in the saved     *)
+(*             package (and was not already missing in the source)         *)
 (*   reopen : "" or the exception raised when opening the saved file       *)
 (***************************************************************************)
 EXTENDS Integers, Sequences, FiniteSets, TLC, Json, IOUtils, TLCExt
@@ -44,6 +50,8 @@ Verdict ==
   ELSE IF \E i \in Created : i > Ev.lastId THEN "above-high-water-mark"
   ELSE IF \E k \in 1..Len(Ev.refs) : Ev.refs[k][1] \in Touched /\ ~(ToSet(Ev.refs[k][2]) \subseteq Saved \cup ToSet(Ev.srcDangling)) THEN "dangling-reference"
   ELSE IF ~(ToSet(Ev.addedFiles) \subseteq ToSet(Ev.componentFiles)) THEN "file-not-listed"
+  ELSE IF \E k \in 1..Len(Ev.dataRefs) : ~(ToSet(Ev.dataRefs[k][2]) \subseteq ToSet(Ev.dataIds) \cup ToSet(Ev.srcDataDangling)) THEN "dangling-data-reference"
+  ELSE IF Ev.dataFilesMissing # <<>> THEN "data-file-missing"
   ELSE IF \E k \in 1..Len(Ev.tables) : ~TableOK(Ev.tables[k]) THEN "tile-geometry"
   ELSE "ok"
 Judge == PrintT("V " \o ToString(tid) \o " " \o Verdict)
